@@ -1706,13 +1706,34 @@ impl<'g> Cx<'g> {
 
     /// `for x in place.iter_mut()`, `for (i, x) in place.iter_mut().enumerate()`, `for (&k, v) in map.iter_mut()`:
     /// a loop over the positions; `x` / `v` stands for the place `place[i]` / the value of the `i`-th binding
-    fn for_iter_mut(&mut self, f: &syn::ExprForLoop, recv: &syn::Expr, enumerated: bool, limit: Option<&syn::Expr>, stmts: &mut Vec<Stmt>) -> R<()> {
+    fn for_iter_mut(
+        &mut self,
+        f: &syn::ExprForLoop,
+        recv: &syn::Expr,
+        enumerated: bool,
+        limit: Option<&syn::Expr>,
+        values_only: bool,
+        stmts: &mut Vec<Stmt>,
+    ) -> R<()> {
         let label = f.label.as_ref().map(|l| l.name.ident.to_string());
         let exit = super::analysis::loop_has_jumps(&f.body, label.as_deref());
         let pl = self.place(recv, stmts)?;
+        let mut hash_checked = false;
         let (et, map_kv) = match pl.ty() {
-            Ty::List(e, _) => (*e, None),
+            Ty::List(e, _) if !values_only => (*e, None),
             Ty::Map(k, v, false) => (Ty::Tuple(vec![(*k).clone(), (*v).clone()]), Some((*k, *v))),
+            Ty::Map(k, v, true) if values_only => {
+                let rt = self.src(recv.span(), String::new());
+                let ok = crate::manifest::HASHMAP_VALUES_MUT_OK.iter().any(|(fl, d, r, _)| *fl == self.file && *d == self.fn_disp && *r == rt);
+                if !ok {
+                    return self.bail(
+                        recv.span(),
+                        "`values_mut()` on a `HashMap` without a manifest entry (HASHMAP_VALUES_MUT_OK: the rounds must be independent)",
+                    );
+                }
+                hash_checked = true;
+                (Ty::Tuple(vec![(*k).clone(), (*v).clone()]), Some((*k, *v)))
+            }
             Ty::Map(_, _, true) => {
                 return self.bail(
                     recv.span(),
@@ -1737,7 +1758,8 @@ impl<'g> Cx<'g> {
                 };
                 (i, x)
             }
-            (syn::Pat::Tuple(t), false, true) if t.elems.len() == 2 => {
+            (syn::Pat::Ident(pi), false, true) if values_only && pi.subpat.is_none() => (None, pi.ident.to_string()),
+            (syn::Pat::Tuple(t), false, true) if !values_only && t.elems.len() == 2 => {
                 let mut kp = &t.elems[0];
                 if let syn::Pat::Reference(r) = kp {
                     kp = &r.pat;
@@ -1775,6 +1797,12 @@ impl<'g> Cx<'g> {
         }
         bound.dedup();
         let mut m = self.assigned_in_block(&f.body, &bound);
+        if hash_checked && (!m.is_empty() || exit || super::analysis::block_leaves_fn(&f.body)) {
+            return self.bail(
+                f.body.span(),
+                "a whitelisted `HashMap::values_mut()` loop must only touch its own value (no other assignment, no `break` / `continue` / `return` / `?`)",
+            );
+        }
         let root = pl.root();
         if !m.contains(&root) {
             m.push(root);
@@ -1885,13 +1913,17 @@ impl<'g> Cx<'g> {
                     };
                     if let syn::Expr::MethodCall(mc) = inner_e {
                         if mc.method == "iter_mut" && mc.args.is_empty() {
-                            return self.for_iter_mut(f, &mc.receiver, enumerated, None, stmts);
+                            return self.for_iter_mut(f, &mc.receiver, enumerated, None, false, stmts);
+                        }
+                        // `map.values_mut()`: the values in key order
+                        if mc.method == "values_mut" && mc.args.is_empty() && !enumerated {
+                            return self.for_iter_mut(f, &mc.receiver, false, None, true, stmts);
                         }
                         // `place.iter_mut().take(n)`: the first `min(n, len)` elements
                         if mc.method == "take" && mc.args.len() == 1 && !enumerated {
                             if let syn::Expr::MethodCall(im) = &*mc.receiver {
                                 if im.method == "iter_mut" && im.args.is_empty() {
-                                    return self.for_iter_mut(f, &im.receiver, false, Some(&mc.args[0]), stmts);
+                                    return self.for_iter_mut(f, &im.receiver, false, Some(&mc.args[0]), false, stmts);
                                 }
                             }
                         }
